@@ -75,9 +75,9 @@ class C06:
     def bounds(self, tier):
         if tier == 'quick':
             return {'alphabet': ALPHA, 'max_len': 4, 'langs_full': ['en'], 'langs_len3': ['de', 'ru'],
-                    'full_table_max_len': 3}
+                    'full_table_max_len': 3, 'option_sets_nosp_seqs_max_len': 3}
         return {'alphabet': ALPHA, 'max_len': 5, 'langs_full': ['en'], 'langs_len4': ['de', 'ru'],
-                'full_table_max_len': 4}
+                'full_table_max_len': 4, 'option_sets_nosp_seqs_max_len': 4}
 
     def cases(self, tier, seed):
         L = 4 if tier == 'quick' else 5
@@ -88,6 +88,12 @@ class C06:
             for k in range(L):
                 for c in itertools.product(ALPHA, repeat=k):
                     yield [''.join(c), lang]
+        # other option sets must not change anything for prose; 'x' is the dummy the filter uses to
+        # switch off its magic comments with --nosp, so it joins the alphabet here
+        Ln = 3 if tier == 'quick' else 4
+        for k in range(1, Ln + 1):
+            for c in itertools.product(ALPHA + ['x'], repeat=k):
+                yield [''.join(c), 'en', 'nosp' if 'x' in c or k < Ln else 'seqs']
         Lf = 3 if tier == 'quick' else 4
         new = set(ALPHA_FULL) - set(ALPHA)
         for k in range(1, Lf + 1):
@@ -96,11 +102,14 @@ class C06:
                     yield [''.join(c), 'en']
 
     def judge(self, case):
-        s, lang = case
+        s, lang = case[:2]
         exp_txt, exp_pos, spans = model(s)
         if excluded(s, spans):
             return {'viol': [], 'out': 'excluded', 'nt': False, 'tr': 1, 'cnt': {'excluded_by_blank_line_rule': 1}}
-        o = impl.run_filter(s, {'pack': '', 'lang': lang})
+        opts = {'pack': '', 'lang': lang}
+        if len(case) > 2:
+            opts.update({'nosp': {'nosp': True}, 'seqs': {'seqs': True, 'pack': '*'}}[case[2]])
+        o = impl.run_filter(s, opts)
         viol = []
         if o.kind != 'ok':
             viol.append({'clause': 'returns', 'sig': 'C06:no-result:' + o.kind, 'detail': o.info})
@@ -122,7 +131,7 @@ class C06:
         return {'viol': viol, 'out': [txt, list(pos)], 'nt': bool(spans), 'tr': 1}
 
     def explain(self, case):
-        s, lang = case
+        s, lang = case[:2]
         e = model(s)
         return 'source %r lang=%s\nmodel  text=%r pos=%r' % (s, lang, e[0], e[1])
 
